@@ -84,11 +84,14 @@ void case_impl(Ctx &c, bool ext) {
   add_sync(w, 0x80, 0);
   // mode random-retype: which objects are stored directly in the dictionary entry and which carry the asynchronous-trigger flag is generated
   bool dir[5] = {false, false, false, false, false}, asy[5] = {true, false, true, false, false};
-  if (ext) { uint32_t f = c.t.below(1024); for (int o = 0; o < 5; o++) { dir[o] = (f >> o) & 1; if (o == 1 || o == 3 || o == 4) asy[o] = (f >> (5 + o)) & 1; } }
-  w.add_int(0x2100, 1, 1, dir[0], false, true, true, 0, true, asy[0]);            // 8-bit, asynchronous trigger
+  // ... and which are node-id-relative (read = stored value + node id): bits of the same draw that were unused before, so the saved tapes keep their meaning
+  bool nid[5] = {false, false, false, false, false};
+  if (ext) { uint32_t f = c.t.below(1024); for (int o = 0; o < 5; o++) { dir[o] = (f >> o) & 1; if (o == 1 || o == 3 || o == 4) asy[o] = (f >> (5 + o)) & 1; }
+             nid[0] = (f >> 5) & 1; nid[2] = (f >> 7) & 1; nid[3] = f % 5 == 0; if (nid[0] || nid[2] || nid[3]) c.cls("node-id-relative-mapped-object"); }
+  w.add_int(0x2100, 1, 1, dir[0], nid[0], true, true, 0, true, asy[0]);            // 8-bit, asynchronous trigger
   w.add_int(0x2100, 2, 1, dir[1], false, true, true, 0x22, true, asy[1]);         // 8-bit
-  w.add_int(0x2100, 3, 2, dir[2], false, true, true, 0x1234, true, asy[2]);       // 16-bit, asynchronous trigger
-  w.add_int(0x2100, 4, 4, dir[3], false, true, true, 0xA1B2C3D4, true, asy[3]);   // 32-bit
+  w.add_int(0x2100, 3, 2, dir[2], nid[2], true, true, 0x1234, true, asy[2]);       // 16-bit, asynchronous trigger
+  w.add_int(0x2100, 4, 4, dir[3], nid[3], true, true, 0xA1B2C3D4, true, asy[3]);   // 32-bit
   w.add_int(0x2100, 5, 4, dir[4], false, true, true, 0x00ABCDEF, true, asy[4]);   // 32-bit, mapped with 24 bit
   static const uint32_t MAPS[5] = {0x21000108, 0x21000208, 0x21000310, 0x21000420, 0x21000518};
   static const int BY[5] = {1, 1, 2, 4, 3};
